@@ -111,7 +111,7 @@ func genSvcs(r *wire.Rng, nss []string, hosts []string, n int, aliases bool) []s
 		// distinct creation times (pickBestVisibleNamespace ranges over a Go map and keeps the
 		// first of two equally old services)
 		for {
-			s.ctime = r.Intn(10)
+			s.ctime = r.Intn(40)
 			clash := false
 			for _, o := range out {
 				if o.hostname == s.hostname && o.ctime == s.ctime {
